@@ -168,6 +168,26 @@ SEEDS = {
            "preamble_mimetype = 'text/plain;' or any value with a MIME parameter"),
  'C20-e': ('C20', "lexer gets a git-header state whose 'similarity index N%' rule leaves the % outside every capture group",
            "a diff section with 'diff --git ...' followed by 'similarity index 90%'"),
+ 'C01-f': ('C01', "writer fast path indents plain UTF-8 preambles with textwrap.indent, which splits on U+0085 / U+2028 / U+2029",
+           "write_preamble('a\\u2028b') with indent >= 1: spaces are inserted after the character"),
+ 'C02-f': ('C02', "non-ASCII str content is NFC-normalised before encoding",
+           "a preamble containing a non-NFC sequence (e + U+0301, U+212B, U+0958)"),
+ 'C03-f': ('C03', "reader passes decoded content through strip_bom first, dropping a real leading U+FEFF",
+           "a preamble / metadata whose first character is U+FEFF"),
+ 'C05-f': ('C05', "DOM reader strips one leading U+FEFF from preamble text",
+           "DiffX(preamble='\\ufeffx') written and parsed back"),
+ 'C06-f': ('C06', "DOM reader strips one leading U+FEFF from preamble text",
+           "a library-produced file whose preamble begins with U+FEFF is re-serialised shorter"),
+ 'C07-f': ('C07', "sections of 1 MiB or more are read block-wise into a per-reader scratch buffer that is returned up to the DECLARED length and never cleared",
+           "two sections over 1 MiB in one file, the later one cut short: it is completed with the earlier one's bytes"),
+ 'C08-f': ('C08', "un-indented decoded content advances the line counter by len(str.splitlines())",
+           "U+2028 / U+0085 / FF / VT / FS.. in un-indented text or JSON, then a parse error near the end: line number beyond the input"),
+ 'C09-f': ('C09', "write_meta dumps JSON into a per-writer StringIO that is reset after use, not in a finally",
+           "write_meta({'a': object()}) raises after partial output reached the buffer; the next accepted write_meta emits the stale prefix"),
+ 'C13-f': ('C13', "diffs with a declared encoding and no line_endings are re-split with str.splitlines()",
+           "a hunk line containing FF, VT, FS, U+0085, U+2028 ... : the file silently gets no stats"),
+ 'C18-f': ('C18', "DOM writer drops options the streaming writer does not accept with del on the dict it holds, which for preamble / change / file sections is section.options itself",
+           "an unknown option on a preamble section, then to_bytes(): the option disappears from the tree"),
  'C14-c': ('C14', "num_processed_lines returns the line of the last finalised hunk instead of the loop position",
            "ignore_garbage=True with non-hunk lines after the last hunk, or no hunks at all"),
 }
